@@ -567,6 +567,34 @@ fn url_expr(item: &str, e: &syn::Expr, helpers: &BTreeMap<String, &syn::ImplItem
             }
         }
     }
+    // `match X { Some(u) => Ok(u), None => Err(E) }`  is  `X.ok_or(E)`
+    if let syn::Expr::Match(m) = e {
+        if m.arms.len() == 2 && m.arms.iter().all(|a| a.guard.is_none()) {
+            let (mut passes, mut err) = (false, None);
+            for a in &m.arms {
+                if let Some(b) = crate::mini::pat_some(&a.pat) {
+                    if let syn::Expr::Call(c) = strip(&a.body) {
+                        // (a helper's parameter that the pattern SHADOWS has been replaced by the argument in the arm as well:
+                        // `Some(url) => Ok(<scrutinee>)` can only be that — an Option does not type-check there)
+                        passes = canon(&c.func) == "Ok"
+                            && c.args.len() == 1
+                            && (crate::mini::ident_of(strip(&c.args[0])).as_deref() == Some(b.as_str()) || canon(&c.args[0]) == canon(&m.expr));
+                    }
+                } else if crate::mini::pat_is_none(&a.pat) {
+                    if let syn::Expr::Call(c) = strip(&a.body) {
+                        if canon(&c.func) == "Err" && c.args.len() == 1 {
+                            err = Some(c.args[0].clone());
+                        }
+                    }
+                }
+            }
+            if let (true, Some(err)) = (passes, err) {
+                let scrut = &m.expr;
+                let rewritten: syn::Expr = syn::parse_quote!(#scrut.ok_or(#err));
+                return url_expr(item, &rewritten, helpers);
+            }
+        }
+    }
     match e {
         syn::Expr::Try(t) => {
             let mut u = url_expr(item, &t.expr, helpers)?;
@@ -703,9 +731,39 @@ fn receiver(f: &syn::ImplItemFn) -> Option<&syn::Receiver> {
     f.sig.inputs.iter().find_map(|a| if let syn::FnArg::Receiver(r) = a { Some(r) } else { None })
 }
 
-fn single_tail<'a>(item: &str, f: &'a syn::ImplItemFn) -> R<&'a syn::Expr> {
-    match f.block.stmts.as_slice() {
-        [syn::Stmt::Expr(e, None)] => Ok(e),
+/// the body as ONE expression: a single tail expression, with plain immutable `let x = E;` statements before it substituted
+/// into what follows (`let u = require(..)?; Ok(self.f_impl(u))`  =  `Ok(self.f_impl(require(..)?))`)
+fn single_tail(item: &str, f: &syn::ImplItemFn) -> R<syn::Expr> {
+    struct Sub {
+        name: String,
+        with: syn::Expr,
+    }
+    impl syn::visit_mut::VisitMut for Sub {
+        fn visit_expr_mut(&mut self, e: &mut syn::Expr) {
+            if crate::mini::ident_of(e).as_deref() == Some(self.name.as_str()) {
+                *e = syn::Expr::Paren(syn::ExprParen { attrs: vec![], paren_token: Default::default(), expr: Box::new(self.with.clone()) });
+                return;
+            }
+            syn::visit_mut::visit_expr_mut(self, e);
+        }
+    }
+    let mut stmts: Vec<syn::Stmt> = f.block.stmts.clone();
+    while stmts.len() > 1 {
+        let (name, init) = match &stmts[0] {
+            syn::Stmt::Local(l) => match crate::mini::plain_let(l) {
+                Some((n, false, v)) => (n, v.clone()),
+                _ => return fail(FILE, item, "a body consisting of a single expression (after plain `let`s)"),
+            },
+            _ => return fail(FILE, item, "a body consisting of a single expression (after plain `let`s)"),
+        };
+        let mut s = Sub { name, with: init };
+        for st in stmts[1..].iter_mut() {
+            syn::visit_mut::VisitMut::visit_stmt_mut(&mut s, st);
+        }
+        stmts.remove(0);
+    }
+    match stmts.first() {
+        Some(syn::Stmt::Expr(e, None)) => Ok(e.clone()),
         _ => fail(FILE, item, "a body consisting of a single expression"),
     }
 }
@@ -993,7 +1051,8 @@ pub fn extract(srcs: &Sources, inv: &Inv) -> R<String> {
             }
             match block_kind {
                 "generic" => {
-                    let e = strip(single_tail(&item, f)?);
+                    let tail_owned = single_tail(&item, f)?;
+                    let e = strip(&tail_owned);
                     // &self.f   |   self.f.as_ref()
                     let got = match e {
                         syn::Expr::Reference(r) if r.mutability.is_none() => self_field(&r.expr).map(|fl| (fl, "direct")),
@@ -1007,7 +1066,8 @@ pub fn extract(srcs: &Sources, inv: &Inv) -> R<String> {
                 }
                 "gated" => {
                     let (ep, state) = gate.unwrap();
-                    let e = strip(single_tail(&item, f)?);
+                    let tail_owned = single_tail(&item, f)?;
+                    let e = strip(&tail_owned);
                     // wrapper?
                     let (inner, wraps_ok) = match e {
                         syn::Expr::Call(c) if canon(&c.func) == "Ok" && c.args.len() == 1 => (strip(&c.args[0]), true),
